@@ -12,8 +12,9 @@ Loader, branch by branch (the ten `resolve*Ref` routines share one skeleton; `ki
     (`*resolved = *cursor`; a nil pointer of that type makes `setRefPath` dereference nil), a
     `map[string]any` (re-decoded into a fresh wrapper), or dereferences nil itself (`*SchemaRef` whose
     `Value` is nil followed by `additionalProperties`; nil `*Paths/*Responses/*Callback`);
-  * recursive call on the resolved wrapper; `errMUST…` from it → `return nil` BEFORE the deferred
-    `unvisitRef` is registered (the text stays in `visitedRefs`);
+  * recursive call on the resolved wrapper; the sentinel `errMUST<own kind>` from it (raised by that wrapper
+    or by a wrapper of the same kind anywhere below it) → `return nil` BEFORE the deferred `unvisitRef` is
+    registered (the text stays in `visitedRefs`, the component stays without value);
   * `component.Value = resolved.Value`; deferred `unvisitRef(ref, component.Value)`: when the value is
     non-nil every callback registered under the text runs — `value.(*K)` panics when the callback was
     registered by a resolver of another kind;
@@ -79,7 +80,7 @@ def St.init : St := ⟨[], [], []⟩
 
 inductive Res
   | ok (s : St)
-  | errMust (s : St)         -- the sentinel `errMUST…` (callers compare with `==`)
+  | errMust (k : Kind) (s : St)   -- the sentinel `errMUST<Kind>` (compared with `==`; it travels up unchanged)
   | err
   | panic (site : Site)
   | outOfFuel
@@ -89,13 +90,13 @@ structure World where
   texts  : List Text                     -- the reference texts for which `target` is not an error
   target : Nat → Text → Kind → Tgt       -- document the text is written in, text, kind of the resolver
 
-/-- children in order; the first result that is not `ok` ends the walk (every Go caller returns the error) -/
+/-- children in order; the first result that is not `ok` ends the walk (every Go caller returns the
+    error value it got — a sentinel stays the same sentinel) -/
 def stepKids (f : Node → St → Res) : List Node → St → Res
   | [], st => .ok st
   | k :: ks, st =>
     match f k st with
     | .ok st' => stepKids f ks st'
-    | .errMust _ => .err          -- a child's `errMUST…` is an ordinary error for the parent
     | r => r
 
 /-- do all callbacks registered under `t` assert kind `k`? (`value.(*K)`) -/
@@ -120,7 +121,9 @@ def finish (n' : Node) (kind : Kind) (id : Nat) (t : Text) (r : Res) : Res :=
     if n'.ref.isNone || s2.value.contains n'.id then
       if callbacksOK s2.pending t kind then .ok (unvisit s2 t id) else .panic .assertKind
     else .ok (unvisitNil s2 t)
-  | .errMust s2 => .ok s2        -- `if err == errMUST… { return nil }`: no unvisit, the text stays in progress
+  -- `if err == errMUST<kind> { return nil }`: the sentinel of THIS resolver's kind — raised by the resolved
+  -- wrapper itself or by any wrapper of the same kind below it — is swallowed: no value, no unvisit
+  | .errMust k s2 => if k == kind then .ok s2 else .err
   | r => r
 
 /-- after the children of a single-file element were walked -/
@@ -132,7 +135,7 @@ def finishSingle (kind : Kind) (id : Nat) (t : Text) (r : Res) : Res :=
 def resolve (w : World) : Nat → Node → St → Res
   | 0, _, _ => .outOfFuel
   | fuel + 1, .mk id doc kind ref empty kids, st =>
-    if empty && kind != .example then .errMust st
+    if empty && kind != .example then .errMust kind st
     else match ref with
       | none => stepKids (resolve w fuel) kids st
       | some t =>
